@@ -18,3 +18,5 @@ import c13
 c13.opts_build()
 import c20
 c20.parse_build()
+import c14
+c14.all_build()
